@@ -108,6 +108,7 @@ type Request struct {
 	Status             int    // HTTP status answered
 	Problem            string // problem type answered ("" none)
 	Identifiers        []string
+	EAB                *EABSeen // the externalAccountBinding object of the payload, if there was one (any request kind)
 }
 
 type authz struct {
@@ -550,6 +551,7 @@ func (ca *CA) serve(w http.ResponseWriter, hr *http.Request) {
 		TermsOfServiceAgreed bool     `json:"termsOfServiceAgreed"`
 		Status               string   `json:"status"`
 	}
+	req.EAB = ca.seenEAB(payload, hd.JWK)
 	if req.Kind == "newAccount" || req.Kind == "account" {
 		json.Unmarshal(payload, &acctReq)
 		req.Contact, req.OnlyReturnExisting = acctReq.Contact, acctReq.OnlyReturnExisting
